@@ -347,7 +347,27 @@ _ADDED5 = {
     "C20": " (T8) the package directory is put under watch without waiting for a generation to complete; (T9) the function the debounce timer runs reaches generateImpl through "
            "a top-level statement that no return precedes.",
 }
-for _src in (_ADDED, _ADDED3, _ADDED4, _ADDED5):
+# Clauses added after the sixth round of independently seeded changes.
+_ADDED6 = {
+    "C01": " (PL1) a length prefix `len(X)` in _binary.py is followed by the bytes of X itself; (TS3) the Python serializers that answer is_trivially_serializable with anything but False "
+           "are the fixed-width primitives, enums, fixed vectors/arrays and records, as in C++.",
+    "C02": " (PF1) arrays are flattened and rebuilt in C order in both Python runtimes; (PF2) FlagsConverter.to_json returns the list of names only under `remaining == 0`; (GF1) the emitted "
+           "C++ flags to_json assigns the list of names only inside an emitted `if (… == 0) {`.",
+    "C03": " (PL1, PF1, PF2, TS3) see C01/C02.",
+    "C04": " (H2) the emitted definition of `schema_` precedes the emitted initialiser of `previous_schemas_`; (A5) GetProtocolSchema appends every TypeDefinition it handles in a statement of "
+           "the clause itself; (A6) the JSON keys of the dimensionalities are pairwise different; (CS1) no function-local static of the runtime headers is initialised from a parameter.",
+    "C05": " (UI1) registered here too; (SN1) the std::sto* function chosen for a set of primitives covers each of them.",
+    "C06": " (PC1) no ==/!= between two non-nil pointers to basic types.",
+    "C09": " (PC1) see C06; (SH1) a := that shadows a variable of the enclosing block is read in its scope; (E7b) no validation sink is received or passed by value; (VS1) also under this "
+           "property, with keys built by helpers from bare definition names.",
+    "C11": " (E7b) see C09; (E8) a function that is handed an error and answers with a bool is not called as a statement.",
+    "C14": " (O3, TS3) registered here too.",
+    "C15": " (A5, A6, CS1) see C04.",
+    "C18": " (N3) registered here too.",
+    "C19": " (SH1) see C09.",
+    "C20": " (T10) every Watcher.Add/Remove with a computed argument next to the result of generateInWatchMode is guarded by a non-nil test of that result.",
+}
+for _src in (_ADDED, _ADDED3, _ADDED4, _ADDED5, _ADDED6):
     for _k, _v in _src.items():
         if _k in PROPS:
             PROPS[_k]["explanation"] += _v
